@@ -2,6 +2,7 @@ import LinfaSpec.Proofs.Incremental
 import LinfaSpec.Proofs.IncrementalState
 import LinfaSpec.Proofs.IncrementalFull
 import LinfaSpec.Proofs.IncrementalMore
+import LinfaSpec.Proofs.IncrementalKm
 
 /-!
 # C15 — incremental fitting replays to batch fitting / its recurrence
@@ -365,6 +366,32 @@ theorem minibatch_running_mean (xs : List α) (c0 : α) (h : xs ≠ []) :
   kmTrack_mean xs c0 h
 
 example : ([2, 4, 9] : List Rat).foldl kmTrack (100, 0) = (5, 3) := by decide +kernel
+
+
+/-- **whole-batch lifting of the running mean.**  After `compute_centroids_incremental` on a batch
+(`obs` with memberships `mem`), coordinate `j` of centroid `c` is the documented recurrence
+`count += 1; x̄ += (x − x̄)/count` run over the `j`-th coordinates of exactly the observations assigned
+to `c`, in batch order, started from the old coordinate with the old cumulative count `n`; the new
+cumulative count is `n` plus their number; equivalently new·(n + m) = old·n + Σ absorbed.
+Hypotheses = the shape invariants of the real arrays (cluster index in range, rows at least as long
+as the centroid) and that the stored count is a natural number. -/
+theorem km_batch_running_mean (c j : Nat) (st : KState α) (obs : List (List α)) (mem : List Nat)
+    (n : Nat) (hc : c < st.centroids.length) (hc' : c < st.counts.length)
+    (hn : st.counts.getD c 0 = (n : α)) (hj : j < (st.centroids.getD c []).length)
+    (hlen : ∀ xm ∈ obs.zip mem, (st.centroids.getD c []).length ≤ xm.1.length) :
+    (((kmIncr st obs mem).centroids.getD c []).getD j 0 =
+        ((coordSeq c j (obs.zip mem)).foldl kmTrack ((st.centroids.getD c []).getD j 0, n)).1) ∧
+    (kmIncr st obs mem).counts.getD c 0 = ((n + (coordSeq c j (obs.zip mem)).length : Nat) : α) ∧
+    ((kmIncr st obs mem).centroids.getD c []).getD j 0 *
+        ((n + (coordSeq c j (obs.zip mem)).length : Nat) : α) =
+      (st.centroids.getD c []).getD j 0 * (n : α) + sumS (coordSeq c j (obs.zip mem)) := by
+  obtain ⟨h1, h2⟩ := kmIncr_cluster c j (obs.zip mem) st n hc hc' hn hj hlen
+  exact ⟨h1, h2, kmIncr_cluster_sum c j (obs.zip mem) st n hc hc' hn hj hlen⟩
+
+/-- two clusters in one dimension, counts 2 and 0, a batch of three points assigned 1, 0, 1 -/
+example : (kmIncr (⟨[[4], [10]], [2, 0]⟩ : KState Rat) [[2], [7], [6]] [1, 0, 1]).centroids = [[5], [4]] ∧
+    (kmIncr (⟨[[4], [10]], [2, 0]⟩ : KState Rat) [[2], [7], [6]] [1, 0, 1]).counts = [3, 2] ∧
+    coordSeq 1 0 ([[2], [7], [6]].zip [1, 0, 1] : List (List Rat × Nat)) = [2, 6] := by decide +kernel
 
 /-- **converged is reported truthfully**: `Ok` iff the Frobenius shift of the centroids is below the tolerance -/
 theorem converged_iff_shift_lt_tol [Transc α] (tol : α) (st : KState α) (obs : List (List α)) :
